@@ -34,7 +34,7 @@ MODES = [('none', None), ('start', 'start'), ('end', 'end'), ('mid', 'mid')]
 
 # ---------------------------------------------------------------------------------------------------- running average
 
-PROP_MODULES = ['C17', 'C17Gen']
+PROP_MODULES = ['C17', 'C17Gen', 'C17Gen2']
 
 def ra_spec(orig, w):
     n = len(orig)
